@@ -30,7 +30,7 @@ def rand_len(rng, tier, small=False):
     if r < 0.93 or tier == 'quick' and r < 0.985: return rng.randrange(20, 300)
     return rng.choice(LONG_LENGTHS)
 
-ROUTES = ['bin', 'auto', 'bytes', 'iter', 'bitarray', 'slice', 'copy', 'bytesio', 'join']
+ROUTES = ['bin', 'auto', 'bytes', 'iter', 'bitarray', 'slice', 'copy', 'bytesio', 'join', 'file', 'file_exact', 'bitarray_le']
 
 def build(clsname, bits, route='bin', pos=None):
     """Construct an object of class clsname holding `bits` through the given route."""
@@ -63,6 +63,21 @@ def build(clsname, bits, route='bin', pos=None):
     elif route == 'join':
         h = n // 2
         o = C().join([bitstring.Bits(bin=bits[:h]), bitstring.BitArray(bin=bits[h:])])
+    elif route == 'bitarray_le':
+        o = C(bitarray.bitarray(bits, endian='little'))
+    elif route in ('file', 'file_exact'):
+        # memory-mapped file: 'file' is an unaligned window of a longer file, 'file_exact' the whole (zero padded) file with an explicit length
+        import tempfile, os
+        if n == 0: o = C(bin=bits)
+        else:
+            allb = ('10110' + bits + '011') if route == 'file' else bits
+            allb += '0' * ((-len(allb)) % 8)
+            fd, path = tempfile.mkstemp(prefix='verif_route_')
+            try:
+                with os.fdopen(fd, 'wb') as fh: fh.write(int(allb, 2).to_bytes(len(allb) // 8, 'big'))
+                o = C(filename=path, offset=5, length=n) if route == 'file' else C(filename=path, length=n)
+            finally:
+                os.unlink(path)          # the mapping stays valid
     else:
         raise AssertionError(route)
     if pos is not None and hasattr(o, 'pos'):
